@@ -16,13 +16,15 @@ Local Open Scope Z_scope.
    rets  (t,k,r)   fiber t's k-th call returned r
    chain (n,t)     waiter-list entries (node, pushing fiber) in the order of the tail exchange,
                    not yet consumed by a head update
-   infl            the fiber whose entry was consumed last and who has not been scheduled yet *)
+   infl            the fiber whose entry was consumed last and who has not been scheduled yet
+   pw              fibers that arrived as non-serial fibers and have not been scheduled yet *)
 Record ist := { base : st;
                 ent : list (nat * nat);
                 arr : list (nat * nat * Z);
                 rets : list (nat * nat * Z);
                 chain : list (nat * nat);
-                infl : option nat }.
+                infl : option nat;
+                pw : list nat }.
 
 (* the client continuation at the bottom of a stack *)
 Definition bot (s : stack bc) : option bc :=
@@ -58,7 +60,13 @@ Definition lstep (x : ist) (t : nat) : ist :=
       | KReady _ _ _ _ :: _ => (chain x, None)
       | _ => (chain x, infl x)
       end in
-  {| base := s'; ent := ent'; arr := arr'; rets := rets'; chain := chain'; infl := infl' |}.
+  let pw' := match stk s t with
+             | WFAdd _ _ _ :: _ => if (word (mem s) 0 + 1) mod cnt s =? 0 then pw x else pw x ++ [t]
+             | KState _ _ _ f :: _ => if fstate (mem s) f =? ST_WAITING then pw x else remove Nat.eq_dec f (pw x)
+             | KReady _ _ _ f :: _ => remove Nat.eq_dec f (pw x)
+             | _ => pw x
+             end in
+  {| base := s'; ent := ent'; arr := arr'; rets := rets'; chain := chain'; infl := infl'; pw := pw' |}.
 
 Lemma lstep_erase x t : base (lstep x t) = fst (step (base x) t).
 Proof.
@@ -74,7 +82,7 @@ Proof.
 Qed.
 
 Definition iinit (count : Z) (rounds : list nat) : ist :=
-  {| base := init count rounds; ent := []; arr := []; rets := []; chain := []; infl := None |}.
+  {| base := init count rounds; ent := []; arr := []; rets := []; chain := []; infl := None; pw := [] |}.
 
 Inductive ireach count rounds : ist -> Prop :=
 | ir_init : ireach count rounds (iinit count rounds)
